@@ -32,7 +32,7 @@ use srtla_send::net::{BatchUdpSocket, SourceIpBinder, UplinkBinder};
 use srtla_send::sender::create_connections_from_ips;
 use srtla_send::sender::verif_hooks::{
     ConnIoMap, ConnectionId, ReaderHandle, SequenceTracker, UplinkPacket, create_uplink_channel,
-    flush_all_batches, handle_housekeeping, handle_srt_packet, handle_uplink_packet, sync_readers,
+    drain_packet_queue, flush_all_batches, handle_housekeeping, handle_srt_packet, handle_uplink_packet, sync_readers,
 };
 use tokio::net::UdpSocket;
 use tokio::sync::mpsc::{UnboundedReceiver, UnboundedSender};
@@ -69,7 +69,7 @@ pub struct ShellSim {
     all_failed_at: Option<u64>,
     readers: HashMap<ConnectionId, ReaderHandle>,
     packet_tx: UnboundedSender<UplinkPacket>,
-    _packet_rx: UnboundedReceiver<UplinkPacket>,
+    packet_rx: UnboundedReceiver<UplinkPacket>,
     instant_tx: UnboundedSender<(SocketAddr, SmallVec<u8, 64>)>,
     _instant_rx: UnboundedReceiver<(SocketAddr, SmallVec<u8, 64>)>,
     snap: ConfigSnapshot,
@@ -94,6 +94,7 @@ pub struct ShellSim {
     pkt_ctr: u32,
     since_flush: u64,
     since_hk: u64,
+    recent_marked: Option<usize>,
     // ---- counters
     c: HashMap<&'static str, u64>,
 }
@@ -133,12 +134,12 @@ impl ShellSim {
             rt, receiver, rx_port, client, client_addr, listener: None,
             conns: SmallVec::new(), io: HashMap::new(), reg: SrtlaRegistrationManager::new(),
             tracker: SequenceTracker::new(), last_sel: None, last_client: None, all_failed_at: None,
-            readers: HashMap::new(), packet_tx, _packet_rx: packet_rx, instant_tx, _instant_rx: instant_rx,
+            readers: HashMap::new(), packet_tx, packet_rx, instant_tx, _instant_rx: instant_rx,
             snap: ConfigSnapshot::default(), cw: CriticalWindow::new(), binder: Arc::new(SourceIpBinder),
             now: T0, n: 2, profile: "mixed".into(),
             path: vec![], rtt: vec![], group: None, registered: vec![], pending: VecDeque::new(),
             ack_buf: vec![], rx_seqs: Default::default(), rx_count: 0, sendfail: vec![],
-            next_seq: 1000, sent_seqs: vec![], pkt_ctr: 0, since_flush: 0, since_hk: 0,
+            next_seq: 1000, sent_seqs: vec![], pkt_ctr: 0, since_flush: 0, since_hk: 0, recent_marked: None,
             c: HashMap::new(),
         }
     }
@@ -375,6 +376,7 @@ impl ShellSim {
         self.sent_seqs.clear();
         self.since_flush = 0;
         self.since_hk = 0;
+        self.recent_marked = None;
         let _ = self.drain_receiver();
         let _ = self.drain_client();
     }
@@ -383,6 +385,10 @@ impl ShellSim {
     fn finish(&mut self, mut line: Value) -> Value {
         let frames = self.drain_receiver();
         let deliveries = self.drain_client();
+        for _ in 0..deliveries.len() { self.bump("client_deliveries"); }
+        for (_, b) in &frames {
+            self.bump(match cls_of(b) { "ka" => "wire_keepalive", "reg1" => "wire_reg1", "reg2" => "wire_reg2", "data" => "wire_data", _ => "wire_other" });
+        }
         let mut wire = Vec::new();
         for (l, b) in &frames {
             wire.push(self.frame_obs(*l, b));
@@ -486,6 +492,7 @@ impl Engine for ShellSim {
                 rt.block_on(async { flush_all_batches(conns, io).await });
             }
             "Housekeeping" => {
+                self.bump("housekeeping");
                 let classic = self.snap.mode.is_classic();
                 let now = self.now;
                 let pre: Vec<(bool, bool, bool)> = self.conns.iter()
@@ -501,6 +508,7 @@ impl Engine for ShellSim {
                 // a reconnect re-created the socket: a sticky send-failure injection ends with it
                 for (i, (t, a, _)) in pre.iter().enumerate() {
                     if *t && *a {
+                        self.bump("reconnect_attempts");
                         self.sendfail[i] = false;
                         self.registered[i] = false;
                     }
@@ -510,11 +518,29 @@ impl Engine for ShellSim {
                 let l = geti(ev, "l") as usize - 1;
                 let bytes: Vec<u8> = ev["bytes"].as_array().unwrap().iter().map(|b| b.as_u64().unwrap() as u8).collect();
                 line["cls"] = json!(cls_of(&bytes));
+                self.bump(match cls_of(&bytes) {
+                    "short" => "uplink_short", "ka" => "uplink_keepalive", "srtla_ack" => "uplink_srtla_ack",
+                    "reg1" => "uplink_reg1", "reg2" => "uplink_reg2", "reg3" => "uplink_reg3", "reg_err" => "uplink_reg_err",
+                    "reg_ngp" => "uplink_reg_ngp", "srt_ack" => "uplink_srt_ack", "srt_nak" => "uplink_srt_nak",
+                    "data" => "uplink_data", _ => "uplink_other_ctrl",
+                });
+                if self.last_client.is_none() { self.bump("uplink_before_client_known"); }
                 line["len"] = json!(bytes.len());
                 line["dig"] = json!(dig(&bytes));
                 line["head"] = json!(bytes.iter().take(20).map(|b| *b as i64).collect::<Vec<_>>());
                 let pre_wait = self.conns[l].rtt.waiting_for_keepalive_response;
                 line["waiting0"] = json!(pre_wait);
+                // keepalive echo: now - timestamp, clamped into 32 bits (0 / negative = not in the past)
+                if bytes.len() >= 10 {
+                    let mut ts: u64 = 0;
+                    for b in &bytes[2..10] {
+                        ts = (ts << 8) | *b as u64;
+                    }
+                    let rel = self.now as i128 - ts as i128;
+                    line["karel"] = json!(rel.clamp(-1_000_000_000, 1_000_000_000) as i64);
+                } else {
+                    line["karel"] = json!(-1_000_000_000i64);
+                }
                 let conn_id = self.conns[l].conn_id;
                 let packet = UplinkPacket { conn_id, bytes: SmallVec::from_slice_copy(&bytes) };
                 let Self { rt, conns, io, reg, instant_tx, last_client, listener, tracker, snap, .. } = self;
@@ -523,6 +549,33 @@ impl Engine for ShellSim {
                 rt.block_on(async {
                     handle_uplink_packet(packet, conns, io, reg, instant_tx, lc, lst, tracker, snap).await;
                 });
+            }
+            "Burst" => {
+                // k receiver datagrams (SRT control, relayed to the client) land in the uplink channel at once
+                let l = geti(ev, "l") as usize - 1;
+                let k = geti(ev, "k") as usize;
+                let conn_id = self.conns[l].conn_id;
+                let mut digs = Vec::new();
+                for j in 0..k {
+                    self.pkt_ctr += 1;
+                    let mut b = vec![0u8; 32 + (j % 7)];
+                    b[0] = 0x80;
+                    b[1] = 0x06;
+                    b[8..12].copy_from_slice(&self.pkt_ctr.to_be_bytes());
+                    digs.push(dig(&b));
+                    let _ = self.packet_tx.send(UplinkPacket { conn_id, bytes: SmallVec::from_slice_copy(&b) });
+                }
+                line["pushed"] = json!(digs);
+            }
+            "Drain" => {
+                // one drain_packet_queue call, as the event loop makes after every arm
+                let Self { rt, conns, io, reg, instant_tx, last_client, listener, tracker, snap, packet_rx, .. } = self;
+                let lc = *last_client;
+                let lst = listener.as_ref().unwrap();
+                rt.block_on(async {
+                    drain_packet_queue(packet_rx, conns, io, reg, instant_tx, lc, lst, tracker, snap).await;
+                });
+                line["left"] = json!(self.packet_rx.len());
             }
             "SetPath" => {
                 let l = geti(ev, "l") as usize - 1;
@@ -540,6 +593,7 @@ impl Engine for ShellSim {
                 self.registered = vec![false; self.n];
             }
             "SendFail" => {
+                self.bump("send_failures_injected");
                 // shut the write side of the link's real socket down: every send on it fails with EPIPE,
                 // deterministically, until the reconnect path replaces the socket
                 let l = geti(ev, "l") as usize - 1;
@@ -571,6 +625,10 @@ impl Engine for ShellSim {
                  && !c.connected && c.last_received.is_none()
                  && (before[i].1 != 0 || before[i].0 || before[i].2))
             .collect();
+        if let Some(l) = marked.iter().position(|m| *m) {
+            self.recent_marked = Some(l);
+            self.bump("links_marked_for_recovery");
+        }
         line["marked"] = json!(marked);
         self.finish(line)
     }
@@ -598,6 +656,19 @@ impl Engine for ShellSim {
                 return Some(json!({"ev": "UplinkPkt", "l": r.link as i64 + 1, "bytes": r.bytes}));
             }
         }
+        // 1a. right after a link was marked for recovery: a (stale) keepalive echo with a plausible timestamp
+        if let Some(l) = self.recent_marked.take() {
+            if rng.random_range(0..2) == 0 && l < self.n {
+                let mut b = vec![0u8; 38];
+                b[0..2].copy_from_slice(&SRTLA_TYPE_KEEPALIVE.to_be_bytes());
+                b[2..10].copy_from_slice(&(self.now - rng.random_range(5..300)).to_be_bytes());
+                return Some(json!({"ev": "UplinkPkt", "l": l as i64 + 1, "bytes": b}));
+            }
+        }
+        // 1b. a loaded uplink channel is drained before anything else (<= 64 datagrams per call)
+        if self.packet_rx.len() > 0 {
+            return Some(json!({"ev": "Drain"}));
+        }
         // 2. timers
         if self.since_hk >= 1000 {
             self.since_hk = 0;
@@ -618,7 +689,11 @@ impl Engine for ShellSim {
                 2 => json!({"ev": "SetPath", "l": l, "p": "replies_lost"}),
                 3 | 4 | 5 => json!({"ev": "SetPath", "l": l, "p": "up"}),
                 6 => json!({"ev": "Amnesia"}),
-                _ => json!({"ev": "SendFail", "l": l}),
+                _ => {
+                    // prefer a link whose replies are being lost (its RTT probe stays outstanding)
+                    let l2 = (0..self.n).find(|i| self.path[*i] == Path::RepliesLost).map(|i| i + 1).unwrap_or(l);
+                    json!({"ev": "SendFail", "l": l2})
+                }
             });
         }
         if r < 16 && self.profile != "classic" {
@@ -630,6 +705,10 @@ impl Engine for ShellSim {
                     json!({"ev": "SetCfg", "timeout": t})
                 }
             });
+        }
+        if (relay && r < 40 || r < 18) && self.last_client.is_some() {
+            let k = match rng.random_range(0..4) { 0 => rng.random_range(1..10), 1 => rng.random_range(60..70), _ => rng.random_range(10..200) };
+            return Some(json!({"ev": "Burst", "l": rng.random_range(1..=self.n), "k": k}));
         }
         // 4. stray / arbitrary datagrams on an uplink
         if relay && r < 350 || r < 30 {
